@@ -73,7 +73,8 @@ let hex_of (l : z list) : string =
     | Z0 -> "00" | Zpos p -> Printf.sprintf "%02x" (int_of_pos p land 255) | Zneg _ -> "??") l)
 
 type dump = { d_mask : int; d_items : z; d_growth : z; d_ctrl : z list;
-              d_slots : (int * kv) list; d_alloc : string; d_sing : bool; d_flags : string list }
+              d_slots : (int * kv) list; d_alloc : string; d_sing : bool; d_flags : string list;
+              d_cap : int option   (* what the collection's own capacity() answered when the dump was taken *) }
 
 let parse_dump (s : string) : dump =
   let ws = words s in
@@ -86,7 +87,8 @@ let parse_dump (s : string) : dump =
         | _ -> failwith "slot") (String.split_on_char ';' t) in
   { d_mask = int_of_string (g "m"); d_items = zs (g "i"); d_growth = zs (g "g"); d_ctrl = unhex (g "c");
     d_slots = slots; d_alloc = g "a"; d_sing = (g "sing" = "1");
-    d_flags = List.filter (fun w -> not (String.contains w '=')) ws }
+    d_flags = List.filter (fun w -> not (String.contains w '=')) ws;
+    d_cap = (match List.assoc_opt "cap" m with Some c -> (try Some (int_of_string c) with _ -> None) | None -> None) }
 
 let table_of_dump (d : dump) : kv table =
   let nb = d.d_mask + 1 in
@@ -425,10 +427,16 @@ let capacity_oracles (say : string -> unit) (where : string) (gw : int) (tsize :
    | ("tryreserve" | "ttryreserve"), Some n when ret_s = "try ok" && fits n ->
      if gl_post < zint n then say (Printf.sprintf "K-FAIL %s: try_reserve(%s) returned Ok but only %d more elements fit" where (string_of_z n) gl_post)
    | _ -> ());
-  if List.mem opname single_insert_ops && zint pre.d_growth > 0 && arm = "-" && normal then begin
+  (* the spare room the collection itself reports: capacity() - len(), both as answered by the
+     implementation (the dump's growth_left is the model's view of the same number) *)
+  let spare_pre = (match pre.d_cap with Some c -> max (zint pre.d_growth) (c - zint pre.d_items) | None -> zint pre.d_growth) in
+  if List.mem opname single_insert_ops && spare_pre > 0 && arm = "-" && normal then begin
     if ev_has_alloc_traffic ev_s || pre.d_mask <> post.d_mask then
-      say (Printf.sprintf "K-FAIL %s: an insertion (re)allocated although capacity()-len() was %d" where (zint pre.d_growth))
+      say (Printf.sprintf "K-FAIL %s: an insertion (re)allocated although capacity()-len() was %d" where spare_pre)
   end;
+  (match post.d_cap with
+   | Some c when c < len_post -> say (Printf.sprintf "K-FAIL %s: capacity() answered %d < len() %d" where c len_post)
+   | _ -> ());
   (match opname, argn 1 with
    | ("withcap" | "twithcap"), Some n when Z.eqb n Z0 && normal -> if post.d_alloc <> "-" then say (Printf.sprintf "K-FAIL %s: with_capacity(0) allocated" where)
    | _ -> ());
@@ -1219,6 +1227,16 @@ let () =
                let act = (match opname with
                  | "eref_or_insert" -> ERefOrInsert | "eref_insert" -> ERefInsert (zs (List.nth opws 3)) | _ -> ERefDrop) in
                eref_into_p_step cfg.backend (hash_of panic_key) tpre (zs (List.nth opws 1)) act
+             end
+             else if List.mem opname ["entry_replace"; "entry_and_replace"; "raw_replace"; "raw_and_replace"] && (try List.nth opws 3 = "some" with _ -> false) && not entry_closure_panic then begin
+               (* entry(k) / raw_entry_mut().from_key(k) ALWAYS hash the key (no is_empty() short cut as in
+                  get_mut): Map.m_entry, with the closure's Some(v) written over the stored value *)
+               bump branch "entry_replace_some_model";
+               m_entry cfg.backend (hash_of panic_key) tpre (zarg 1)
+                 (fun _ i e -> match slot_write tpre i { k_id = e.k_id; k_stamp = e.k_stamp; v_val = zarg 4 } with
+                    | Fail x -> Fail x
+                    | Ok t1 -> Ok ((t1, OutVal e.v_val), []))
+                 (fun _ -> Ok ((tpre, OutNone), []))
              end
              else if opname = "raw_hash_insert" then begin
                bump branch "raw_from_hash_model";
